@@ -1259,14 +1259,15 @@ wav_write_header (SF_PRIVATE *psf, int calc_length)
 		} ;
 
     psf_binheader_writef (psf, "tm8", BHWm (data_MARKER), BHW8 (SF_MIN(psf->datalength, UINT32_MAX))) ;
-	psf_fwrite (psf->header.ptr, psf->header.indx, 1, psf) ;
-	if (psf->error)
-		return psf->error ;
-
+	/* The header must end where the audio data starts : never write a header of another length over existing data. */
 	if (has_data && psf->dataoffset != psf->header.indx)
 	{	psf_log_printf (psf, "Oooops : has_data && psf->dataoffset != psf->header.indx\n") ;
 		return psf->error = SFE_INTERNAL ;
 		} ;
+
+	psf_fwrite (psf->header.ptr, psf->header.indx, 1, psf) ;
+	if (psf->error)
+		return psf->error ;
 
 	psf->dataoffset = psf->header.indx ;
 
